@@ -1225,7 +1225,7 @@ func funAbs(v *decimal.Big) (*decimal.Big, error) {
 
 func funCeil(v *decimal.Big) (*decimal.Big, error) {
 	result := newDecimalBig()
-	decimal.Context64.Ceil(result, v)
+	decimal.Context128.Ceil(result, v)
 	return result, nil
 }
 
@@ -1237,7 +1237,7 @@ func funExp(v *decimal.Big) (*decimal.Big, error) {
 
 func funFloor(v *decimal.Big) (*decimal.Big, error) {
 	result := newDecimalBig()
-	decimal.Context64.Floor(result, v)
+	decimal.Context128.Floor(result, v)
 	return result, nil
 }
 
